@@ -1100,11 +1100,32 @@ func execUnpack(b []byte, o *vu.Out) string {
 			o.Fail("", fmt.Sprintf("decoded name %q is too long or has a '.' inside a label (input %x)", n.Data[:n.Length], b))
 		}
 	})
+	// Record types whose decoder checks the body against RDLENGTH (TXT, OPT, SVCB, HTTPS, unknown)
+	// must re-pack to exactly the Length that was parsed (Pack refreshes the Length fields of m).
+	type lenAt struct {
+		sec, i int
+		l      uint16
+	}
+	var strict []lenAt
+	for si, sec := range [][]dm.Resource{m.Answers, m.Authorities, m.Additionals} {
+		for i := range sec {
+			switch sec[i].Body.(type) {
+			case *dm.TXTResource, *dm.OPTResource, *dm.SVCBResource, *dm.HTTPSResource, *dm.UnknownResource:
+				strict = append(strict, lenAt{si, i, sec[i].Header.Length})
+			}
+		}
+	}
 	r3 := vu.Catch(func() string {
 		packed, err := m.Pack()
 		if err != nil {
 			o.Fail("", fmt.Sprintf("accepted message does not re-pack: %v (input %x)", err, b))
 			return ""
+		}
+		for _, x := range strict {
+			r := [][]dm.Resource{m.Answers, m.Authorities, m.Additionals}[x.sec][x.i]
+			if r.Header.Length != x.l {
+				o.Fail("", fmt.Sprintf("accepted record (section %d, #%d, type %d) was parsed with Length %d but its body re-packs to %d bytes: the decoder read outside the record (input %x)", x.sec+1, x.i, r.Header.Type, x.l, r.Header.Length, b))
+			}
 		}
 		var m2 dm.Message
 		if err := m2.Unpack(packed); err != nil {
